@@ -395,6 +395,8 @@ package caldav
 //@   ensures M2: lvlC(b, r) == 3 ==> (ccalCalls == old(ccalCalls) + 1 && ccalCal != nil && ccalCal.Path == r.URL.Path && mutations == old(mutations) + 1 && (err == nil || beErr(err)))
 //@   |   || (ccalCalls == old(ccalCalls) && mutations == old(mutations) && err != nil && local4xx(err))
 //@   ensures M3: err != nil ==> beErr(err) || local4xx(err)
+//@   -- C13: a body that does not ask for a collection of this kind is refused with 400 and creates nothing
+//@   ensures M4: ccalCalls == old(ccalCalls) + 1 && !old(bodyEmpty(r)) ==> decodedOk(r, "mkcolReq") && (let m : decoded(r, "mkcolReq") in rtHasV(m.ResourceType, internal.CollectionName) && rtHasV(m.ResourceType, calendarName))
 //@ func caldav.(*backend).Delete(b, r) (err)
 //@   requires R1: servedCB(b) && validReq(r)
 //@   ensures D1: dcoCalls == old(dcoCalls) + 1 && dcoPath == r.URL.Path && mutations == old(mutations) + 1
